@@ -1864,6 +1864,15 @@ static int64_t eval(Node *node) {
   return eval2(node, NULL);
 }
 
+// The folder computes in int64_t. Arithmetic on unsigned int wraps
+// around modulo 2^32 at run time, so reduce a folded result of that
+// type the same way (signed overflow is undefined and left alone).
+static int64_t wrap_to_type(Type *ty, int64_t val) {
+  if (is_integer(ty) && ty->size == 4 && ty->is_unsigned)
+    return (uint32_t)val;
+  return val;
+}
+
 // Evaluate a given node as a constant expression.
 //
 // A constant expression is either just a number or ptr+n where ptr
@@ -1878,11 +1887,11 @@ static int64_t eval2(Node *node, char ***label) {
 
   switch (node->kind) {
   case ND_ADD:
-    return eval2(node->lhs, label) + eval(node->rhs);
+    return wrap_to_type(node->ty, eval2(node->lhs, label) + eval(node->rhs));
   case ND_SUB:
-    return eval2(node->lhs, label) - eval(node->rhs);
+    return wrap_to_type(node->ty, eval2(node->lhs, label) - eval(node->rhs));
   case ND_MUL:
-    return eval(node->lhs) * eval(node->rhs);
+    return wrap_to_type(node->ty, eval(node->lhs) * eval(node->rhs));
   case ND_DIV: {
     int64_t rhs = eval(node->rhs);
     if (!rhs)
@@ -1896,7 +1905,7 @@ static int64_t eval2(Node *node, char ***label) {
     return eval(node->lhs) / rhs;
   }
   case ND_NEG:
-    return -eval(node->lhs);
+    return wrap_to_type(node->ty, -eval(node->lhs));
   case ND_MOD: {
     int64_t rhs = eval(node->rhs);
     if (!rhs)
@@ -1917,7 +1926,7 @@ static int64_t eval2(Node *node, char ***label) {
   case ND_BITXOR:
     return eval(node->lhs) ^ eval(node->rhs);
   case ND_SHL:
-    return eval(node->lhs) << eval(node->rhs);
+    return wrap_to_type(node->ty, eval(node->lhs) << eval(node->rhs));
   case ND_SHR:
     if (node->ty->is_unsigned && node->ty->size == 8)
       return (uint64_t)eval(node->lhs) >> eval(node->rhs);
@@ -1941,7 +1950,7 @@ static int64_t eval2(Node *node, char ***label) {
   case ND_NOT:
     return !eval(node->lhs);
   case ND_BITNOT:
-    return ~eval(node->lhs);
+    return wrap_to_type(node->ty, ~eval(node->lhs));
   case ND_LOGAND:
     return eval(node->lhs) && eval(node->rhs);
   case ND_LOGOR:
